@@ -50,6 +50,7 @@ pub fn views(e: &TypeEntry) -> Views {
 pub fn c01(_args: &Args, reg: &[TypeEntry], log: &mut Log) {
     for e in reg {
         let Some(s) = &e.serde else { continue };
+        log.start(&e.id, &e.rust);
         let info = build_env(e);
         let v = views(e);
         let mut problems: Vec<(String, String)> = info.problems.clone();
@@ -219,6 +220,7 @@ pub fn c02(args: &Args, reg: &[TypeEntry], log: &mut Log) {
     for e in reg {
         let Some(s) = &e.serde else { continue };
         let Some(roundtrip) = s.roundtrip else { continue };
+        log.start(&e.id, &e.rust);
         let info = build_env(e);
         let v = views(e);
         let mut problems: Vec<(String, String)> = info.problems.clone();
